@@ -346,6 +346,7 @@ func runC07(c *Check) {
 	c.ruleFlagRaisedBehindItsArgument("R13")
 	c.ruleSafeDecidedBeforeDelivery("R14")
 	c.ruleUnconfirmedSetKeepsEveryEntry("R15")
+	c.ruleNoCallTo("R17", "TransactionExists", []string{"handlers"}, "an announcement of a tx that is already held is dropped before MemPool.AddRequest, which is where an announcement by the trusted node marks the held tx trusted: a tx first received from an untrusted peer is never reported safe")
 	c.ruleFieldWriters("R16", "storage", "unconfirmedTx", "time", map[string]string{"storage.newUnconfirmedTx": "first seen", "storage.(*TxRepository).MarkTrusted": "the delay restarts when the trusted node vouches", "storage.readUnconfirmedTx": "loaded"}, "the safe delay is measured from this time; a value from elsewhere (a zero time for a tx that came another way) reports the tx safe before the delay has passed")
 	c.ruleLoopVisitsAll("R7", "spynode.(*Node).checkTxDelays", func(v ssa.Value) bool {
 		return derivesFromCall(v, "(*storage.TxRepository).GetNewSafe") != nil
